@@ -1130,6 +1130,11 @@ Fixpoint json_to_domains (items : list (str * json)) (acc : list (str * domain))
       json_to_domains items' (acc ++ [(name, dom)])
   end.
 
+(** [PatternedTensor(torch.zeros(shape))]: the dense all-zero tensor *)
+Definition zeros_pt (shape : list nat) : ptensor :=
+  mkPT (tens_of_flat shape (repeat (NFin 0) (prod_list shape))) 0 shape
+       (map (fun kn => APhys (fst kn) (snd kn)) (combine (seq 0 (length shape)) shape)) (NFin 0).
+
 Definition json_to_factor (tbl : list elabel) (doms : list (str * domain)) (name : str) (d : json) : res factor :=
   do el <- match lab_get tbl name with Some l => Ok l | None => Err KeyErr end;
   do ds <- mapM (fun nl => match dict_find doms nl with Some x => Ok x | None => Err KeyErr end) (el_type el);
@@ -1139,7 +1144,10 @@ Definition json_to_factor (tbl : list elabel) (doms : list (str * domain)) (name
     if negb (el_term el) then Err ValueErr else Ok (FConstant w)
   else if json_eqb f (JStr k_finite) then
     do jw <- jget d k_weights;
-    do w <- json_to_weights_model jw;
+    do w0 <- json_to_weights_model jw;
+    (* if weights.numel() == 0: weights = PatternedTensor(torch.zeros([dom.size() for dom in doms]))
+       (an empty dimension erases the dimensions after it: the repair of F21, commit 38f8bd3) *)
+    let w := if Nat.eqb (prod_list (pt_shape w0)) 0 then zeros_pt (map domain_size ds) else w0 in
     (* FiniteFactor.weights setter: shape check; then add_factor *)
     if negb (nats_eqb (pt_shape w) (map domain_size ds)) then Err ValueErr
     else if negb (el_term el) then Err ValueErr else Ok (FFinite w)
